@@ -8,6 +8,7 @@ type verifTree struct {
 	n    int64  // ':' value, '#' 0/1
 	kids []verifTree
 	null bool // RESP2 null forms decode to typeNull
+	attr []verifTree // attribute key/value children attached to this value (nil: none)
 }
 
 func verifIsStr(t byte) bool {
